@@ -8,6 +8,20 @@ ROOT = os.path.dirname(os.path.dirname(os.path.abspath(__file__)))
 
 # id -> (category, technique, text, note, design_ref)
 CHECKS = {
+    "C02": (
+        "exploration",
+        "reference-model + metamorphic monitor: grammar-generated argument ASTs, leaves evaluated by stock Django, containers/spreads by Python; many layouts x two real receivers compiled and rendered through real templates",
+        "12k (quick) / 300k (thorough) argument-list ASTs (nested list/dict literals, */**/... spreads, filter chains with arguments, translation strings, dynamic strings with {{ }}/{% %}/{# #}, aggregate and special-character keys, flags) are written out in 3-5 layouts each (whitespace, newlines, trailing commas, quote style with re-escaping, self-closing vs end tag) and rendered through a probe BaseNode and a probe Component under 1-3 contexts; the received (args, kwargs, flags) must equal the reference value for every layout; the documented-invalid spread combinations must raise TemplateSyntaxError.",
+        "Trusts stock Django's FilterExpression/Template for leaf values and the E4 generator's notion of 'documented grammar' (DESIGN.md §4 lists what is not generated).",
+        "DESIGN.md §2 C02, §1 E4",
+    ),
+    "C12": (
+        "exploration",
+        "exception-type monitor + sys.monitoring LINE-event step budget (raises from the callback) + doubling-ratio monitor + per-parse alarm + serialise/re-parse round trip, over exhaustive short strings, random long strings, mutations of valid tags and whole templates",
+        "Every string over a 22-symbol syntax alphabet up to length 4 (quick) / 5, plus length 6 over 14 structural symbols (thorough), is fed to parse_tag and compiled inside slot/component/html_attrs/provide/fill/custom tags; plus random strings to length 200, single-edit mutations of grammar-generated tags, generated whole templates and scaled families. Any exception other than TemplateSyntaxError, a LINE-event count above 60n^2+4000n+20000, a doubling ratio above 4.5 or a 20 s alarm is a violation; grammar-generated tags must survive serialise -> re-parse unchanged.",
+        "C-level regex time is only bounded by the alarm; memory is not separately measured (a step bound bounds allocation by the scanners).",
+        "DESIGN.md §2 C12",
+    ),
     "C08": (
         "exploration",
         "by-construction oracle over typed document pieces; CSS/JS strings taken from the implementation on a canonical document; type-preservation and middleware pass-through monitors",
